@@ -43,8 +43,9 @@ def v_reject(x):
 
 
 def v_int(x):
-    if type(x) is int:
-        return x
+    # Int's documented conversion: an int (incl. bool and other subclasses) is stored as an exact int; nothing else passes
+    if isinstance(x, int):
+        return int(x)
     raise TraitError("not an int")
 
 
@@ -56,7 +57,8 @@ class Holder(HasTraits):
 
 
 # (every int has a second raw spelling that the coercing validator maps onto it: collisions of raw forms are frequent)
-ITEM = st.sampled_from([0, 1, 2, 3, 4, "0", "1", "2", "3", "4", 1, 2, "1", "2", -1, None, {"t": [1]}])
+# 1.0 / 2.0 / True are EQUAL to members but are other objects: removing operations must never swap them in
+ITEM = st.sampled_from([0, 1, 2, 3, 4, "0", "1", "2", "3", "4", 1, 2, "1", "2", -1, None, {"t": [1]}, 1.0, 2.0, True])
 BAD = st.sampled_from([{"l": [1]}, {"d": []}])
 ITEMS = st.lists(st.one_of(ITEM, ITEM, ITEM, ITEM, ITEM, ITEM, ITEM, ITEM, BAD), max_size=4)
 ARGS = st.lists(ITEMS, max_size=3)
@@ -123,7 +125,9 @@ def model_apply(m, name, args, val):
     elif name == "difference_update":
         m.difference_update(*args[0])       # the builtin itself: items are not validated by removing ops
     elif name == "intersection_update":
-        m.intersection_update(*args[0])
+        inter = set(m).intersection(*args[0])          # (raises what the builtin raises)
+        for x in [x for x in m if x not in inter]:     # the set keeps ITS OWN (validated) items, cf. C04 / F36
+            m.discard(x)
     elif name == "symmetric_difference_update":
         sym(m, set(args[0]), val)
     elif name in ("ior", "iand", "isub", "ixor"):
@@ -133,7 +137,8 @@ def model_apply(m, name, args, val):
         if name == "ior":
             m |= set(vs(a))
         elif name == "iand":
-            m &= a
+            for x in [x for x in m if x not in a]:
+                m.discard(x)
         elif name == "isub":
             m -= a
         else:
